@@ -33,6 +33,14 @@ type gen struct {
 	bad    int // deliberate template errors still to inject
 	budget int // template roles still allowed
 	nroles int
+	outer  []outerVar // enclosing iteration variables, innermost last
+}
+
+// outerVar is an iteration variable of an enclosing iterator; ints = every element of that
+// iterator's range is known to print as a decimal integer (so it can serve as a bound).
+type outerVar struct {
+	name string
+	ints bool
 }
 
 var plainNames = []string{"a", "b", "c", "d", "e"}
@@ -282,6 +290,11 @@ func (g *gen) rangeNode(scope []string) *sx.Node {
 		}
 		return false
 	}
+	// inside the template of an enclosing iterator: let the range depend on the enclosing
+	// iteration variable(s), so that every generated child has to evaluate ITS OWN range
+	if len(g.outer) > 0 && g.r.P(1, 2) {
+		return g.depRange(has)
+	}
 	switch g.r.N(6) {
 	case 0, 1:
 		b := g.r.Range(0, 2)
@@ -308,14 +321,20 @@ func (g *gen) role(depth int, scope []string, nameBase, itVar string, allowIter 
 	switch {
 	case allowIter && depth < 3 && k < 3:
 		v := rng.Pick(g.r, iterVars)
+		rn := g.rangeNode(scope)
+		g.outer = append(g.outer, outerVar{v, rangeInts(rn)})
 		body := g.role(depth, append(append([]string{}, scope...), v), nameBase, v, false)
+		g.outer = g.outer[:len(g.outer)-1]
 		g.budget++ // the iterator and its template count once
 		g.nroles--
-		return sx.L(sx.A("I"), g.rangeNode(scope), sx.A(v), body)
+		return sx.L(sx.A("I"), rn, sx.A(v), body)
 	case depth < 3 && k < 6 && g.budget > 0:
 		h, _, cs := g.hdr(scope, nameBase, itVar, false)
 		if itVar != "" {
 			cs = append(cs, itVar)
+			if g.r.P(1, 3) {
+				cs = append(cs, g.deriveFromIter(h)...)
+			}
 		}
 		n := sx.L(sx.A("A"), h)
 		cnt := g.r.Range(0, 3)
